@@ -37,6 +37,118 @@ def _calls(body, rx):
             t.callee.indirect is None and re.search(rx, t.callee.target_p())]
 
 
+COUNT_TY = re.compile(r"^(usize|u64|zcash_client_backend::fees::OutputManifest)$")
+PASS_COUNT = re.compile(r"::(sapling|orchard|ironwood|transparent|for_pool|from|into|clone|total_shielded)$")
+
+
+def _count_sources(body, du, o, depth=0, seen=None):
+    """identities of the count-valued variables an operand is computed from: named locals (or their
+    tuple fields) of type usize / OutputManifest; compiler temporaries are unfolded over all their
+    definitions, accessor and constructor calls are looked through, constants contribute nothing"""
+    seen = set() if seen is None else seen
+    out = set()
+    if not isinstance(o, tuple) or depth > 20:
+        return out
+    k = o[0]
+    if k in ("ref", "deref", "variant", "cast"):
+        return _count_sources(body, du, o[-1] if k == "cast" else o[1], depth + 1, seen)
+    if k == "field":
+        base = defuse.strip_refs(o[1])
+        if base[0] in ("local", "arg") and o[2][1:].isdigit():
+            l = base[1] if base[0] == "local" else base[1] + 1
+            return {"_%d%s" % (l, o[2])}
+        return _count_sources(body, du, o[1], depth + 1, seen)
+    if k == "arg":
+        ty = re.sub(r"^&(mut )?", "", body.local_ty(o[1] + 1))
+        return {"_%d" % (o[1] + 1)} if COUNT_TY.match(ty) else out
+    if k == "local":
+        l = o[1]
+        ty = re.sub(r"^&(mut )?", "", body.local_ty(l))
+        if body.local_name(l):
+            return {"_%d" % l} if COUNT_TY.match(ty) else out
+        if l in seen:
+            return out
+        seen.add(l)
+        for kind, _bi, x in du.defs.get(l, []):
+            if kind == "stmt" and x.rv.kind in ("use", "cast") and x.rv.ops:
+                out |= _count_sources(body, du, du.origin(x.rv.ops[0]), depth + 1, seen)
+            elif kind == "call":
+                nm = x.callee.target_p() if x.callee.indirect is None else ""
+                if PASS_COUNT.search(nm):
+                    for a in x.args:
+                        out |= _count_sources(body, du, du.origin(a), depth + 1, seen)
+                elif COUNT_TY.match(ty):
+                    out.add("_%d" % l)
+            elif kind == "stmt" and x.rv.kind == "agg":
+                for a in x.rv.ops:
+                    out |= _count_sources(body, du, du.origin(a), depth + 1, seen)
+        return out
+    if k == "call":
+        if PASS_COUNT.search(o[1]):
+            for a in o[2]:
+                out |= _count_sources(body, du, a, depth + 1, seen)
+        return out
+    if k == "agg":
+        for a in o[2]:
+            out |= _count_sources(body, du, a, depth + 1, seen)
+        return out
+    if k == "bin":
+        return _count_sources(body, du, o[2], depth + 1, seen) | _count_sources(body, du, o[3], depth + 1, seen)
+    return out
+
+
+def rule_shape(chk, w, f):
+    """In each fee computation of the change calculation the three shielded change counts handed
+    to the fee rule (Sapling outputs, Orchard actions, Ironwood actions) are derived from ONE
+    variable — the fee is the fee of one transaction shape, not of a mixture of the targeted and
+    the reduced change counts."""
+    b, du = f.body, defuse.DefUse(f.body)
+    calls = sorted(_calls(b, r"FeeRule>?::fee_required$|::fee_required$"), key=lambda x: (x[1].span.line, x[1].span.col))
+    n = 0
+    for bb, t in calls:
+        if len(t.args) < 9:
+            continue
+        slots = []
+        for a in t.args[6:9]:
+            # the count handed to the per-pool counting closure: `closure(&cl, (COUNT,))`
+            o = du.origin(a)
+            txt = defuse.show(o)
+            cnt = None
+            stack = [o]
+            while stack and cnt is None:
+                x = stack.pop()
+                if not isinstance(x, tuple):
+                    continue
+                if x[0] == "call" and re.search(r"\{closure#\d+\}$", x[1]) and len(x[2]) == 2 and \
+                        x[2][1][0] == "agg" and x[2][1][1] == "tuple" and len(x[2][1][2]) == 1:
+                    cnt = x[2][1][2][0]
+                    break
+                for y in x[1:]:
+                    if isinstance(y, tuple):
+                        stack.append(y)
+                    elif isinstance(y, list):
+                        stack.extend(y)
+            slots.append((_count_sources(b, du, cnt) if cnt is not None else None, txt))
+        n += 1
+        key = "fee_required#%d" % n
+        if any(sl[0] is None for sl in slots):
+            chk.fail("SHAPE", key + "/anchors", "the change counts handed to the fee rule were not found (%s)"
+                     % [sl[1][:60] for sl in slots], t.span.loc())
+            continue
+        sets = [sl[0] for sl in slots]
+        names = [sorted(b.local_name(int(re.match(r"_(\d+)", x).group(1))) or x for x in st) for st in sets]
+        if sets[0] == sets[1] == sets[2]:
+            chk.ok("SHAPE", "fee computation at %s: the Sapling, Orchard and Ironwood change counts all derive from %s"
+                   % (t.span.loc(), names[0] or "constants (no change)"), sample=(n == 2))
+        else:
+            chk.fail("SHAPE", key, "one fee computation mixes change counts from different variables: Sapling outputs "
+                     "from %s, Orchard actions from %s, Ironwood actions from %s — the fee is not the fee of any one "
+                     "transaction shape" % (names[0], names[1], names[2]), t.span.loc())
+    if n < 3:
+        chk.fail("SHAPE", "missing", "expected the three fee computations of the change calculation, found %d" % n,
+                 f.span.loc())
+
+
 def main(tier):
     chk = Check("C07", "other", tier)
     chk.explanation = (
@@ -50,6 +162,7 @@ def main(tier):
     chk.trusted = ["rustc MIR", "C09 (Zatoshis arithmetic is checked and exact)", "usize::div_ceil, core::cmp::max"]
     chk.rule("FORMULA", "fee_required computes the ZIP 317 formula with the standard constants", floor=6)
     chk.rule("REFUSE", "InsufficientFunds only when inputs < outputs + fee, reporting those values", floor=2)
+    chk.rule("SHAPE", "each fee computation of the change calculation describes one change shape", floor=3)
     chk.rule("BAL", "TransactionBalance only from its constructor; total = sum(change) + fee", floor=3)
     w = zf.World(extract.facts_dir("all"), ["zcash_primitives", "zcash_protocol", "zcash_client_backend",
                                             "zcash_transparent"])
@@ -238,6 +351,12 @@ def main(tier):
                    "subtractions (inventoried)" % rest)
     else:
         chk.fail("REFUSE", "single_pool_output_balance/missing", "not found")
+
+    # ---- SHAPE: one fee computation describes one change shape
+    if len(sp) == 1:
+        rule_shape(chk, w, sp[0])
+    else:
+        chk.fail("SHAPE", "missing", "single_pool_output_balance not found")
 
     # ---- BAL
     vc.vc1(chk, "BAL", w, TB, r"fees::TransactionBalance::new$")
